@@ -16,7 +16,7 @@ SPEC = {
     ],
     "extra_bins": [{"bin": "c04d", "extra_args": ["4", "30", "1500"], "n_factor": 0.25}],
     "classes": {7: "repeated-key-resolved-per-occurrence"},
-    "n_quick": 400, "n_thorough": 8000,
+    "n_quick": 400, "n_thorough": 1600,
     "level": "proof",
     "what_violation": ("a resolver ran more often than once per collected response key of its parent object (stream CASE), or the root fields of a "
                        "mutation overlapped / left document order in the Start/End log, or the data changed with the completion order (stream DSCHED)"),
